@@ -110,6 +110,19 @@ def main(tier, seed, replay=None):
                         c["shapes"].append(ps_)
                     for lit in rng.sample([Literal("abbc"), Literal("ABBC"), Literal("AbC"), Literal("xyz")], rng.randint(2, 4)):
                         c["data"].add((fn_, EX.q, lit))
+                if rng.random() < 0.85:
+                    # blank nodes (and IRIs) as the values compared by sh:lessThan / sh:lessThanOrEquals / sh:equals / sh:disjoint: whatever
+                    # the component says about two blank nodes, it cannot be something read off their labels
+                    fn_ = rng.choice([n_ for n_ in c["nodes"] if isinstance(n_, URIRef)])
+                    kind_ = rng.choice(["lessthan", "lessthan", "lessthaneq", "lessthaneq", "equals", "disjoint"])
+                    pp_ = S.new_shape(EX.BPAIR, ("pred", str(EX.r)))
+                    pp_["targets"]["nodes"] = [fn_]
+                    pp_["comps"].append((kind_, [EX.s]))
+                    c["shapes"].append(pp_)
+                    pool_ = [BNode("pv%d_%d" % (j, i_)) for i_ in range(4)] + [EX.n0, EX.n1]
+                    for pr_ in (EX.r, EX.s):
+                        for o_ in rng.sample(pool_[:4], 2) + rng.sample(pool_, rng.randint(0, 2)):
+                            c["data"].add((fn_, pr_, o_))
                 c["sg"] = S.shapes_to_rdf(c["shapes"])
                 opts, api, fam = {}, "validate", "core components"
             elif r < 0.62:
